@@ -59,7 +59,7 @@ def generate(seed, tier, index):
     for s in range(nslots):
         if rng.random() < 0.8:
             traffic.append(['act', s, 'get_registry', 0, 0, rng.randrange(1 << 30), 0])
-    traffic += c15.gen_gdb_traffic(rng, seed, nslots, n, p_destroy=0.0, p_foreign_thread=0.03)
+    traffic += c15.gen_gdb_traffic(rng, seed, nslots, n, p_destroy=rng.choice([0.0, 0.0, 0.04, 0.1]), p_foreign_thread=0.03)
     if nslots >= 2 and rng.random() < 0.2:
         # aim at `wlconnection <x>` where <x> is another connection's letter and an earlier connection's app id
         from . import c06
@@ -76,6 +76,8 @@ def generate(seed, tier, index):
             w.act(slotconn[it[1]], it[2], it[3], it[4], it[5])
         elif it[0] == 'tick':
             w.tick(it[1])
+        elif it[0] == 'destroy':
+            slotconn.pop(it[1] % nslots, None)
     st = c15.FakeStream()
     st.world = w
     st.lines = [(None, x) for x in w.items]
@@ -221,6 +223,14 @@ def execute(sc):
     for seq, kind, e in events:
         if kind == 'hit':
             if e['kind'] != 'message':
+                # wl_connection_destroy: the program is never halted there, whatever state the session is in
+                V.bump('destroy_events')
+                if e['exception']:
+                    V.add('C10/exception', 'destroy:' + c18.trigger_of(e['exception']), e['exception'][-1000:])
+                elif e['stop']:
+                    V.add('C10/stop-iff', 'halted-at-destroy', 'the wl_connection_destroy breakpoint halted the program (%s connection); '
+                          'previous events: %s' % (e.get('what'), ''.join(trace[-6:])))
+                trace.append('D')
                 continue
             cl = e['closure']
             if e['exception']:
